@@ -5,29 +5,31 @@ import TarsModel.Proofs.TotalWitness
 
 Property theorems only (helper lemmas: `Proofs/Total*.lean`; instrumented decoders:
 `Model/Cost.lean`).  Subject: the reader of `codec.go` (`Model/Wire.lean`) and the generated
-struct decoders (`Model/Schema.lean`): `skipField`, `SkipToStructEnd`, `SkipToNoCheck`, and
-`ReadFrom` (`decStruct`) for every schema environment, every struct, every target, every input.
+struct decoders (`Model/Schema.lean`) as they are after the fixes for D8 and D11 (`CheckLength`
+before every `make`, length guard before the array loop): `skipField`, `SkipToStructEnd`,
+`SkipToNoCheck`, and `ReadFrom` (`decStruct`) for every schema environment, every struct, every
+target, every input.
 
 * **Termination** (`C05_skip_fuel_suffices`, `C05_skip_fuel_independent`, `C05_terminates`): the
   fuel of the model is never exhausted, i.e. the fuel-indexed model describes the unbounded Go
   recursion faithfully: every recursive call / loop iteration consumes an input byte or ends.
   No hypothesis on the schema is needed (entering a nested struct consumes its StructBegin head);
   Lean's totality gives "returns a value or an error".
-* **Panics** (`C05_no_panic_partial`, `C05_panic_counterexamples`, `C05_makeslice_reachable`): the
-  property is VIOLATED as found (D11).  Exactly two run-time panics are possible in the
-  generated decoders, each with its trigger: `makeslice` (a LIST length prefix decoding to a
-  negative number reaches `make([]T, length)`) and `index` (a LIST with more elements than the
-  fixed array it is decoded into).  Both are reachable: witnesses by evaluation, and a general
-  sufficient condition for `makeslice`.
-* **Stack** (`C05_depth_le`, `C05_depth_linear_witness`): VIOLATED (D12): the Go call depth of the
-  skip recursion is bounded by the input length and this is attained: `n` bytes `0x0A` give depth
-  `n`, so stack use is unbounded in the input (10 MiB of `0x0A` ⇒ fatal stack overflow).
-* **Allocation** (`C05_alloc_partial`, `C05_alloc_ok`, `C05_alloc_unbounded`,
-  `C05_alloc_counterexample`): VIOLATED (D11): as soon as the length prefix of a vector is read the
-  decoder requests that many elements, whatever remains of the input (6 bytes ⇒ 2^31 − 1
-  elements).  Under the hypothesis that every length given to `make` is covered by the remaining
-  input, a successful decode allocates at most the input length, and any decode at most
-  `(nest + 1)` times the input length (`nest` = deepest nesting of unfilled slices).
+* **Panics** (`C05_no_panic`, `C05_no_go_panic`): HOLDS at full strength: `ReadFrom` into a
+  well-shaped target of a closed environment returns a value or a plain Go error, never a
+  run-time panic.  The former D11 sites are kept as theorems about the as-found code
+  (`C05_panic_counterexamples_asFound`), with the same inputs now rejected
+  (`C05_former_witnesses_rejected`).
+* **Allocation** (`C05_alloc_ok`, `C05_alloc`): HOLDS without hypothesis: every `make` follows a
+  successful `CheckLength`, a successful decode allocates (elements + string/slice bytes + map
+  entries) at most what it consumed, and any decode at most `(nest + 1)` times the input length
+  (`nest` = deepest nesting of unfilled slices).  As found, 6 bytes requested 2^31 − 1 elements
+  (`C05_alloc_counterexample_asFound`).
+* **Stack** (`C05_depth_le`, `C05_depth_linear_witness`, `C05_depth_unbounded`): still VIOLATED
+  (D12): the Go call depth of the skip recursion is bounded by the input length and this is
+  attained: `n` bytes `0x0A` give depth `n`, so stack use is unbounded in the input (10 MiB of
+  `0x0A` ⇒ fatal stack overflow).  This is the only clause of `C05_full` that fails
+  (`C05_decode_safe_holds`, `C05_full_violated`).
 
 Not in this file: the UDP handler's `req[4:]` on datagrams shorter than 4 bytes (D9) is transport
 code outside `Model/Wire.lean`/`Model/Schema.lean`.
@@ -37,16 +39,18 @@ open Consts
 
 /-! ## Full-strength statement -/
 
-/-- The property at full strength, on the model: decoding into a well-shaped target of a
-    well-formed schema never panics, allocates at most a fixed multiple `k` of the input length
-    (plus a constant), and uses a call depth bounded independently of the input.
-    FALSE for the code as found: `C05_full_violated`. -/
+/-- the part of the property about values: no panic, allocation linear in the input -/
+def C05_decode_safe : Prop :=
+  ∀ (env : Env) (name : String) (old : Val) (r : Reader), EnvClosed env → Shape env (.struct name) old →
+    PlainRes (decStruct env name old r).1 ∧
+    (decStructA env name old r).2.alloc ≤ ((decStructA env name old r).2.nest + 1) * r.data.size ∧
+    (∀ v, (decStructA env name old r).1.1 = .ok v → (decStructA env name old r).2.alloc ≤ r.data.size)
+
+/-- The property at full strength, on the model: `C05_decode_safe`, and a call depth bounded
+    independently of the input.  The first part holds (`C05_decode_safe_holds`); the stack clause
+    is false (`C05_full_violated`, D12). -/
 def C05_full : Prop :=
-  (∀ (env : Env) (name : String) (old : Val) (r : Reader), EnvClosed env → Shape env (.struct name) old →
-      PlainRes (decStruct env name old r).1) ∧
-  (∃ k c, k ≤ 64 ∧ ∀ (env : Env) (name : String) (old : Val) (r : Reader), EnvClosed env →
-      Shape env (.struct name) old → (decStructA env name old r).2.alloc ≤ k * r.data.size + c) ∧
-  (∃ D, ∀ (r : Reader), structEndDepth r ≤ D)
+  C05_decode_safe ∧ ∃ D, ∀ (r : Reader), structEndDepth r ≤ D
 
 /-! ## Termination: the fuel is never exhausted -/
 
@@ -84,10 +88,8 @@ theorem C05_skip_fuel_independent (f f' ty : Nat) (n : Int) (r : Reader)
 theorem C05_terminates (env : Env) (name : String) (old : Val) (r : Reader) :
     (decStruct env name old r).1 ≠ .error .fuel := by
   intro h
-  rcases decStruct_cls env name old r _ h with h1 | ⟨h1, _⟩ | ⟨h1, _⟩ | h1
+  rcases decStruct_cls env name old r _ h with h1 | h1
   · simp at h1
-  · cases h1
-  · cases h1
   · simp [illTyped] at h1
 
 /-- the same for the decoders at any sufficient fuel (`W` = largest member count of `env`) -/
@@ -95,45 +97,48 @@ theorem C05_terminates_decVar (env : Env) (f tag : Nat) (req : Bool) (ty : Ty) (
     (hf : (env.width + 3) * r.remaining + 1 ≤ f) :
     (decVar env f tag req ty old r).1 ≠ .error .fuel := by
   intro h
-  rcases (dec_cls env f).1 tag req ty old r hf _ h with h1 | ⟨h1, _⟩ | ⟨h1, _⟩ | h1
+  rcases (dec_cls env f).1 tag req ty old r hf _ h with h1 | h1
   · simp at h1
-  · cases h1
-  · cases h1
   · simp [illTyped] at h1
 
-/-! ## Panics: exact characterisation of the sites (D11) -/
+/-! ## Panics: none (D11 fixed) -/
 
-/-- Every panic of `ReadFrom` (well-formed environment, well-shaped target) is one of two, with
-    its trigger: "makeslice" directly after a length prefix that decoded to a negative number, or
-    "index" after a length prefix exceeding the size `n` of a fixed array occurring in the struct's
-    type.  Missing for the full property: these two cases are real (next theorems). -/
-theorem C05_no_panic_partial {env : Env} (hwf : EnvClosed env) {name : String} {old : Val}
-    (hsh : Shape env (.struct name) old) {r r' : Reader} {s : String}
-    (h : decStruct env name old r = (.error (.panic s), r')) :
-    (s = "makeslice" ∧ NegLenAt r r') ∨
-    (s = "index" ∧ Overlong (HasArr env (.struct name)) r r') := by
-  have hc := decStruct_cls env name old r (.panic s) (by rw [h])
-  have hn := decStruct_notIll hwf hsh r
-  rw [h] at hc hn
-  rcases hc with h1 | ⟨h1, h2⟩ | ⟨h1, h2⟩ | h1
-  · simp at h1
-  · simp only [Err.panic.injEq] at h1; exact .inl ⟨h1, h2⟩
-  · simp only [Err.panic.injEq] at h1; exact .inr ⟨h1, h2⟩
-  · exact absurd (by rw [h1]) hn
-
-/-- outside the two triggers the decoder returns a value or a plain Go error -/
-theorem C05_no_panic_outside_triggers {env : Env} (hwf : EnvClosed env) {name : String} {old : Val}
-    (hsh : Shape env (.struct name) old) (r : Reader)
-    (h1 : ¬ NegLenAt r (decStruct env name old r).2)
-    (h2 : ¬ Overlong (HasArr env (.struct name)) r (decStruct env name old r).2) :
+/-- **No panic, full strength.**  `ReadFrom` of any struct of a closed environment into a
+    well-shaped target (e.g. a fresh one, `C05_fresh_shape`), on any input, returns a value or a
+    plain Go error: never a run-time panic (and never the model artefact `.fuel`). -/
+theorem C05_no_panic {env : Env} (hwf : EnvClosed env) {name : String} {old : Val}
+    (hsh : Shape env (.struct name) old) (r : Reader) :
     PlainRes (decStruct env name old r).1 := by
   intro e he
-  have hn := decStruct_notIll hwf hsh r
-  rcases decStruct_cls env name old r e he with h | ⟨_, h⟩ | ⟨_, h⟩ | h
+  rcases decStruct_cls env name old r e he with h | h
   · exact h
-  · exact absurd h h1
-  · exact absurd h h2
-  · exact absurd (by rw [he, h]) hn
+  · exact absurd (by rw [he, h]) (decStruct_notIll hwf hsh r)
+
+theorem C05_no_panic' {env : Env} (hwf : EnvClosed env) {name : String} {old : Val}
+    (hsh : Shape env (.struct name) old) (r : Reader) (s : String) :
+    (decStruct env name old r).1 ≠ .error (.panic s) :=
+  (C05_no_panic hwf hsh r).ne_panic s
+
+/-- without any hypothesis on environment and target: the only panic-tagged outcome of the model
+    is its own "ill-typed target" marker (which is not a behaviour of the Go code, whose targets
+    are well-typed by construction) -/
+theorem C05_no_go_panic (env : Env) (name : String) (old : Val) (r : Reader) (s : String)
+    (h : (decStruct env name old r).1 = .error (.panic s)) : Err.panic s = illTyped := by
+  rcases decStruct_cls env name old r _ h with h1 | h1
+  · simp at h1
+  · exact h1
+
+/-- the same for every member/element decoder at sufficient fuel -/
+theorem C05_no_go_panic_decVar (env : Env) (f tag : Nat) (req : Bool) (ty : Ty) (old : Val) (r : Reader)
+    (hf : (env.width + 3) * r.remaining + 1 ≤ f) (s : String)
+    (h : (decVar env f tag req ty old r).1 = .error (.panic s)) : Err.panic s = illTyped := by
+  rcases (dec_cls env f).1 tag req ty old r hf _ h with h1 | h1
+  · simp at h1
+  · exact h1
+
+/-- `ReadBytes` (TUP) no longer panics on a negative length -/
+theorem C05_readBytes_no_panic (len : Int) (r : Reader) : PlainRes (readBytes len r).1 :=
+  readBytes_plain len r
 
 /-- a fresh target is well-shaped -/
 theorem C05_fresh_shape {env : Env} (hwf : EnvClosed env) {name : String} {fs : List Field}
@@ -141,33 +146,38 @@ theorem C05_fresh_shape {env : Env} (hwf : EnvClosed env) {name : String} {fs : 
   shape_fresh hwf h
 
 open C05 in
-/-- **Witnesses (D11), by evaluation of the model.**  `struct V { 0 require vector<int> v; }` on
-    `09 00 FF` (LIST, length −1): panic "makeslice".  `struct A { 0 require int a[3]; }` on a LIST
-    of 4 elements: panic "index" after the third element. -/
-theorem C05_panic_counterexamples :
-    decStruct envV "V" (freshStruct envV "V") (Reader.mk0 negLenInput)
+/-- **D11 as found** (before fix 040488e), by evaluation of the as-found vector head / array loop
+    kept in `Model/Cost.lean`: `09 00 FF` (LIST, length −1) made `make([]T, -1)` panic; a LIST of
+    4 elements decoded into `int a[3]` panicked with "index out of range" after the third. -/
+theorem C05_panic_counterexamples_asFound :
+    AsFound.vecMake 0 true (Reader.mk0 negLenInput)
       = (.error (.panic "makeslice"), ⟨negLenInput.toArray, 3⟩) ∧
-    decStruct envA "A" (freshStruct envA "A") (Reader.mk0 overlongInput)
+    AsFound.arrLoop envA 50 .i32 3 [.int 0, .int 0, .int 0] ⟨overlongInput.toArray, 1⟩
       = (.error (.panic "index"), ⟨overlongInput.toArray, 9⟩) :=
-  ⟨witness_makeslice, witness_index⟩
+  ⟨asFound_makeslice, asFound_index⟩
 
-/-- "makeslice" is reachable in EVERY generated `ReadFrom` whose first member is a vector: a LIST
-    head under that member's tag followed by a negative length -/
-theorem C05_makeslice_reachable (env : Env) (name : String) (fld : Field) (fs : List Field) (e : Ty)
-    (o : Val) (os : List Val) {r r1 r2 : Reader} {len : Int}
-    (hfind : env.find name = some (fld :: fs)) (hty : fld.ty = .vec e)
-    (hs : skipToNoCheck fld.tag fld.req r = (.ok (true, tyLIST), r1))
-    (hl : readLen r1 = (.ok len, r2)) (hneg : len < 0) :
-    decStruct env name (.struct (o :: os)) r = (.error (.panic "makeslice"), r2) :=
-  decStruct_makeslice env name fld fs e o os hfind hty hs hl hneg
+open C05 in
+/-- the same inputs (and the former allocation witness) on the current model: plain errors,
+    raised directly after the length prefix -/
+theorem C05_former_witnesses_rejected :
+    decStruct envV "V" (freshStruct envV "V") (Reader.mk0 negLenInput)
+      = (.error .eof, ⟨negLenInput.toArray, 3⟩) ∧
+    decStruct envA "A" (freshStruct envA "A") (Reader.mk0 overlongInput)
+      = (.error .mismatch, ⟨overlongInput.toArray, 3⟩) ∧
+    decStruct envV "V" (freshStruct envV "V") (Reader.mk0 hugeLenInput)
+      = (.error .eof, ⟨hugeLenInput.toArray, 6⟩) :=
+  ⟨repaired_negLen, repaired_overlong, repaired_hugeLen⟩
 
-/-- hence the full property fails for the code as found -/
-theorem C05_full_violated : ¬ C05_full := by
-  intro ⟨h, _, _⟩
-  have hp := h C05.envV "V" (freshStruct C05.envV "V") (Reader.mk0 C05.negLenInput) C05.envV_wf
-    (shape_fresh C05.envV_wf C05.findV)
-  rw [witness_makeslice] at hp
-  simp at hp
+/-- general form: a vector member whose length prefix is negative or exceeds the bytes left is
+    rejected before anything is allocated; an array member receiving too long a LIST likewise -/
+theorem C05_bad_length_rejected (env : Env) (f tag : Nat) (req : Bool) (e : Ty) (old : Val) (n : Nat)
+    {r r1 r2 : Reader} {len : Int}
+    (hs : skipToNoCheck tag req r = (.ok (true, tyLIST), r1)) (hl : readLen r1 = (.ok len, r2)) :
+    ((len < 0 ∨ (r2.remaining : Int) < len) →
+      decVar env (f+1) tag req (.vec e) old r = (.error .eof, r2)) ∧
+    (len > (n : Int) → decVar env (f+1) tag req (.arr n e) old r = (.error .mismatch, r2)) :=
+  ⟨fun h => decVar_vec_checkfail env f tag req e old hs hl h,
+   fun h => decVar_arr_toolong env f tag req n e old hs hl h⟩
 
 /-! ## Stack depth (D12) -/
 
@@ -198,7 +208,10 @@ theorem C05_depth_unbounded : ¬ ∃ D, ∀ r : Reader, structEndDepth r ≤ D :
   rw [structEndDepth_nest] at this
   omega
 
-/-! ## Allocation (D11) -/
+/-- the full property fails, and only because of the stack clause -/
+theorem C05_full_violated : ¬ C05_full := fun h => C05_depth_unbounded h.2
+
+/-! ## Allocation (D11 fixed) -/
 
 /-- the allocation-instrumented decoders compute the original results -/
 theorem C05_alloc_instrument_faithful (env : Env) (name : String) (old : Val) (r : Reader)
@@ -207,26 +220,24 @@ theorem C05_alloc_instrument_faithful (env : Env) (name : String) (old : Val) (r
     (decVarA env f tag req ty old r).1 = decVar env f tag req ty old r :=
   ⟨decStructA_eq env name old r, (decA_eq env f).1 tag req ty old r⟩
 
-/-- a successful decode in which every length given to `make` was covered by the remaining input
-    allocated (elements + string/slice bytes + map entries) no more than the input it consumed -/
+/-- a successful decode allocated (elements + string/slice bytes + map entries) no more than the
+    input it consumed — no hypothesis -/
 theorem C05_alloc_ok (env : Env) (name : String) (old : Val) (r : Reader) (v : Val)
-    (hlen : (decStructA env name old r).2.lenOK = true)
     (hok : (decStructA env name old r).1.1 = .ok v) :
     (decStructA env name old r).2.alloc + (decStructA env name old r).1.2.remaining ≤ r.remaining ∧
     (decStructA env name old r).2.alloc ≤ r.data.size := by
-  have := (decStructA_bound env name old r hlen).1 v hok
+  have := (decStructA_bound env name old r).1 v hok
   refine ⟨by omega, ?_⟩
   have : r.remaining ≤ r.data.size := by unfold Reader.remaining; omega
   omega
 
-/-- under the same hypothesis any decode (also a failing one) allocated at most `(nest + 1)` times
-    the input length, `nest` being the deepest nesting of slices allocated and not yet filled.
-    Missing for the full property: the hypothesis — the generated code never compares a length
-    prefix with what remains (next theorems). -/
-theorem C05_alloc_partial (env : Env) (name : String) (old : Val) (r : Reader)
-    (hlen : (decStructA env name old r).2.lenOK = true) :
+/-- any decode (also a failing one) allocated at most `(nest + 1)` times the input length, `nest`
+    being the deepest nesting of slices allocated and not yet filled — no hypothesis.
+    (`nest` is at most the nesting depth of vector types for a non-recursive schema; for a schema
+    that is recursive through vectors it can grow with the input, giving a quadratic bound.) -/
+theorem C05_alloc (env : Env) (name : String) (old : Val) (r : Reader) :
     (decStructA env name old r).2.alloc ≤ ((decStructA env name old r).2.nest + 1) * r.data.size := by
-  have hb := decStructA_bound env name old r hlen
+  have hb := decStructA_bound env name old r
   have hr : r.remaining ≤ r.data.size := by unfold Reader.remaining; omega
   have hm := Nat.mul_le_mul (Nat.le_refl (decStructA env name old r).2.nest) hr
   rw [Nat.add_mul, Nat.one_mul]
@@ -234,53 +245,38 @@ theorem C05_alloc_partial (env : Env) (name : String) (old : Val) (r : Reader)
   | ok v => have := hb.1 v hx; omega
   | error e => have := hb.2 e hx; omega
 
-/-- **Unbounded allocation** is reachable in EVERY generated `ReadFrom` whose first member is a
-    vector: after a LIST head and a length prefix `len ≥ 0` the decoder requests `len` elements,
-    whatever remains of the input -/
-theorem C05_alloc_unbounded (env : Env) (name : String) (fld : Field) (fs : List Field) (e : Ty)
-    (o : Val) (os : List Val) {r r1 r2 : Reader} {len : Int}
-    (hfind : env.find name = some (fld :: fs)) (hty : fld.ty = .vec e)
-    (hs : skipToNoCheck fld.tag fld.req r = (.ok (true, tyLIST), r1))
-    (hl : readLen r1 = (.ok len, r2)) (hpos : 0 ≤ len) :
-    len.toNat ≤ (decStructA env name (.struct (o :: os)) r).2.alloc :=
-  decStructA_vec_alloc env name fld fs e o os hfind hty hs hl hpos
-
 open C05 in
-/-- **Witness (D11)**: the 6-byte input `09 02 7F FF FF FF` makes `struct V { vector<int> v; }`
-    request 2^31 − 1 elements (8 GiB for `[]int32`) -/
-theorem C05_alloc_counterexample :
+/-- **D11 as found**: on the 6-byte input `09 02 7F FF FF FF` the vector head handed
+    2^31 − 1 to `make` (8 GiB for `[]int32`) without looking at what remains -/
+theorem C05_alloc_counterexample_asFound :
     hugeLenInput.length = 6 ∧
-    2147483647 ≤ (decStructA envV "V" (freshStruct envV "V") (Reader.mk0 hugeLenInput)).2.alloc := by
-  refine ⟨rfl, ?_⟩
-  rw [freshV]
-  exact decStructA_vec_alloc envV "V" ⟨0, true, .vec .i32, none⟩ [] .i32 (.list []) []
-    (r1 := ⟨hugeLenInput.toArray, 1⟩) (r2 := ⟨hugeLenInput.toArray, 6⟩) (len := 2147483647)
-    findV rfl (by rfl) hugeLen_readLen (by decide)
+    AsFound.vecMake 0 true (Reader.mk0 hugeLenInput) = (.ok 2147483647, ⟨hugeLenInput.toArray, 6⟩) :=
+  ⟨rfl, asFound_hugeMake⟩
+
+/-! ## The value part of the property holds; only the stack clause fails -/
+
+theorem C05_decode_safe_holds : C05_decode_safe := by
+  intro env name old r hwf hsh
+  exact ⟨C05_no_panic hwf hsh r, C05_alloc env name old r,
+    fun v hv => (C05_alloc_ok env name old r v hv).2⟩
 
 /-! ## Non-vacuity -/
 
--- well-formed environments and well-shaped (fresh) targets exist
+-- closed environments and well-shaped (fresh) targets exist
 example : EnvClosed C05.envV := C05.envV_wf
 example : EnvClosed C05.envA := C05.envA_wf
 example : Shape C05.envV (.struct "V") (freshStruct C05.envV "V") := shape_fresh C05.envV_wf C05.findV
 example : Shape C05.envA (.struct "A") (freshStruct C05.envA "A") := shape_fresh C05.envA_wf C05.findA
--- the triggers of `C05_no_panic_partial` hold on the witnesses
-example : NegLenAt (Reader.mk0 C05.negLenInput) ⟨C05.negLenInput.toArray, 3⟩ :=
-  ⟨⟨C05.negLenInput.toArray, 1⟩, -1, ⟨rfl, by decide⟩, by rfl, by decide⟩
-example : HasArr C05.envA (.struct "A") 3 :=
-  HasArr.struct C05.findA List.mem_cons_self (HasArr.here 3 .i32)
--- hypotheses of `C05_alloc_ok` (lenOK, success) on a valid encoding: 2 elements allocated, 7 bytes
-example : (decStructA C05.envV "V" (freshStruct C05.envV "V") (Reader.mk0 C05.twoInts)).2.lenOK = true := by
-  rw [C05.twoInts_cost]
+-- a successful decode with non-zero allocation (hypothesis of `C05_alloc_ok`): 2 elements, 7 bytes
 example : (decStructA C05.envV "V" (freshStruct C05.envV "V") (Reader.mk0 C05.twoInts)).1.1
     = .ok (.struct [.list [.int 1, .int 2]]) := by
   rw [C05.twoInts_cost]
-example : (decStructA C05.envV "V" (freshStruct C05.envV "V") (Reader.mk0 C05.twoInts)).2.alloc = 2 := by
+example : (decStructA C05.envV "V" (freshStruct C05.envV "V") (Reader.mk0 C05.twoInts)).2 = ⟨2, 1⟩ := by
   rw [C05.twoInts_cost]
 -- hypotheses of `C05_skip_fuel_independent`: the model's own fuel qualifies
 example (r : Reader) : 2 * r.remaining + 2 ≤ r.fuel := by
   unfold Reader.fuel Reader.remaining; omega
--- hypotheses of `C05_makeslice_reachable` / `C05_alloc_unbounded` on the witnesses
+-- hypotheses of `C05_bad_length_rejected` on the former witnesses
 example : skipToNoCheck 0 true (Reader.mk0 C05.hugeLenInput)
     = (.ok (true, tyLIST), ⟨C05.hugeLenInput.toArray, 1⟩) := by rfl
 example : readLen ⟨C05.hugeLenInput.toArray, 1⟩ = (.ok 2147483647, ⟨C05.hugeLenInput.toArray, 6⟩) :=
